@@ -195,7 +195,7 @@ def check_c17(args):
     runs = []
     for i, c in enumerate(cases):
         for eng in ("mem", "disk"):
-            steps = [{"sql": s} for s in G.setup_sql(c["db"], G.TABLES)]
+            steps = [{"sql": s} for s in S.case_setup(c, eng, split_inserts=False)]
             steps.append({"sql": c["sql"], "plans": PLAN_CFGS if eng == "mem" else []})
             runs.append({"id": f"g{i}.{eng}", "engine": eng, "steps": steps})
     # ---- the fixed subquery family
